@@ -232,7 +232,13 @@ func (w *c13World) probe(in *c13Intern, mut string, i int, cnt *Counters) (coq, 
 		pred, sig = "bep3-genesis-verdicts:"+mut, "bep3-probe-verdict-"+mut
 		detail = fmt.Sprintf("perturbation %s (index %d) of the exported genesis: Validate passes=%v (expected %v), InitGenesis ok=%v (expected %v)", mut, i, valid, want[0], cls == ClassOk, want[1])
 	}
-	return fmt.Sprintf("GProbe (mkGen %s %s %s) %s %s", List(sws), List(sups), Zi(gs.PreviousBlockTime.UnixNano()), Bool(valid), cls.Coq()), pred, sig, detail
+	genCoq := fmt.Sprintf("(mkGen %s %s %s)", List(sws), List(sups), Zi(gs.PreviousBlockTime.UnixNano()))
+	// stated on the implementation alone: a genesis state GenesisState.Validate refuses is never imported
+	if !valid && cls == ClassOk {
+		pred, sig = "invalid-genesis-imported:bep3:"+mut, "invalid-genesis-imported:bep3:"+mut
+		detail = fmt.Sprintf("GenesisState.Validate refuses this genesis state (perturbation %s, index %d, of a real export) but InitGenesis on an emptied store imports it: %s", mut, i, genCoq)
+	}
+	return fmt.Sprintf("GProbe %s %s %s", genCoq, Bool(valid), cls.Coq()), pred, sig, detail
 }
 
 // genesisExpect: what GenesisState.Validate / InitGenesis must say about a perturbed export (validate passes, init
